@@ -91,6 +91,10 @@ def render(model, output: str, inputs: dict[str, str]) -> str:
             if attr(n, "axis", 0) != 0:
                 raise Unsupported("GatherElements with axis != 0")
             return "(GatherElements0 " + " ".join(args()) + ")"
+        if op == "CumSum":
+            if attr(n, "exclusive", 0) != 0 or attr(n, "reverse", 0) != 0:
+                raise Unsupported("CumSum exclusive / reverse")
+            return "(CumSum " + " ".join(args()) + ")"
         if op == "ScatterND":
             if attr(n, "reduction", "none") != "none":
                 raise Unsupported("ScatterND with a reduction")
